@@ -355,46 +355,46 @@ type dprod struct {
 }
 
 var docProds = []dprod{
-	{"grammar", []string{"name", "decls"}},                // 0
-	{"name", []string{"grammar", "IDENT", "semi_opt"}},    // 1
-	{"decls", []string{"decls", "decl"}},                  // 2
-	{"decls", nil},                                        // 3
-	{"decl", []string{"token", "semi_opt"}},               // 4
-	{"decl", []string{"directive", "semi_opt"}},           // 5
-	{"decl", []string{"rule", ";"}},                       // 6
-	{"semi_opt", []string{";"}},                           // 7
-	{"semi_opt", nil},                                     // 8
-	{"token", []string{"TOKEN", "=", "STRING"}},           // 9
-	{"token", []string{"TOKEN", "=", "REGEX"}},            // 10
-	{"token", []string{"TOKEN", "=", "PREDEF"}},           // 11
-	{"directive", []string{"@left", "handles"}},           // 12
-	{"directive", []string{"@right", "handles"}},          // 13
-	{"directive", []string{"@none", "handles"}},           // 14
-	{"handles", []string{"handles", "term"}},              // 15
-	{"handles", []string{"handles", "rule_handle"}},       // 16
-	{"handles", []string{"term"}},                         // 17
-	{"handles", []string{"rule_handle"}},                  // 18
-	{"rule_handle", []string{"<", "rule", ">"}},           // 19
-	{"rule", []string{"lhs", "=", "rhs"}},                 // 20
-	{"rule", []string{"lhs", "="}},                        // 21
-	{"lhs", []string{"nonterm"}},                          // 22
-	{"rhs", []string{"rhs", "rhs"}},                       // 23
-	{"rhs", []string{"(", "rhs", ")"}},                    // 24
-	{"rhs", []string{"[", "rhs", "]"}},                    // 25
-	{"rhs", []string{"{", "rhs", "}"}},                    // 26
-	{"rhs", []string{"{{", "rhs", "}}"}},                  // 27
-	{"rhs", []string{"rhs", "|", "rhs"}},                  // 28
-	{"rhs", []string{"rhs", "|"}},                         // 29
-	{"rhs", []string{"nonterm"}},                          // 30
-	{"rhs", []string{"term"}},                             // 31
-	{"nonterm", []string{"IDENT"}},                        // 32
-	{"term", []string{"TOKEN"}},                           // 33
-	{"term", []string{"STRING"}},                          // 34
+	{"grammar", []string{"name", "decls"}},             // 0
+	{"name", []string{"grammar", "IDENT", "semi_opt"}}, // 1
+	{"decls", []string{"decls", "decl"}},               // 2
+	{"decls", nil},                                     // 3
+	{"decl", []string{"token", "semi_opt"}},            // 4
+	{"decl", []string{"directive", "semi_opt"}},        // 5
+	{"decl", []string{"rule", ";"}},                    // 6
+	{"semi_opt", []string{";"}},                        // 7
+	{"semi_opt", nil},                                  // 8
+	{"token", []string{"TOKEN", "=", "STRING"}},        // 9
+	{"token", []string{"TOKEN", "=", "REGEX"}},         // 10
+	{"token", []string{"TOKEN", "=", "PREDEF"}},        // 11
+	{"directive", []string{"@left", "handles"}},        // 12
+	{"directive", []string{"@right", "handles"}},       // 13
+	{"directive", []string{"@none", "handles"}},        // 14
+	{"handles", []string{"handles", "term"}},           // 15
+	{"handles", []string{"handles", "rule_handle"}},    // 16
+	{"handles", []string{"term"}},                      // 17
+	{"handles", []string{"rule_handle"}},               // 18
+	{"rule_handle", []string{"<", "rule", ">"}},        // 19
+	{"rule", []string{"lhs", "=", "rhs"}},              // 20
+	{"rule", []string{"lhs", "="}},                     // 21
+	{"lhs", []string{"nonterm"}},                       // 22
+	{"rhs", []string{"rhs", "rhs"}},                    // 23
+	{"rhs", []string{"(", "rhs", ")"}},                 // 24
+	{"rhs", []string{"[", "rhs", "]"}},                 // 25
+	{"rhs", []string{"{", "rhs", "}"}},                 // 26
+	{"rhs", []string{"{{", "rhs", "}}"}},               // 27
+	{"rhs", []string{"rhs", "|", "rhs"}},               // 28
+	{"rhs", []string{"rhs", "|"}},                      // 29
+	{"rhs", []string{"nonterm"}},                       // 30
+	{"rhs", []string{"term"}},                          // 31
+	{"nonterm", []string{"IDENT"}},                     // 32
+	{"term", []string{"TOKEN"}},                        // 33
+	{"term", []string{"STRING"}},                       // 34
 }
 
 type rnode struct {
-	Prod int     // production index, -1 for a leaf
-	Tok  int     // token index for a leaf
+	Prod int // production index, -1 for a leaf
+	Tok  int // token index for a leaf
 	Kids []*rnode
 }
 
